@@ -1,4 +1,4 @@
-package main
+package sw
 
 import (
 	"math/rand"
